@@ -339,6 +339,9 @@ func TestZZReplay(t *testing.T) {
 		if !timedOut {
 			res.Failed = append(zzFailed, zzclock.ZZGhostFailed()...)
 			res.Observed = zzObserved
+		} else {
+			// assertions that failed before the case stalled still count (the stall is often their consequence)
+			res.Failed = append(append([]string(nil), zzFailed...), zzclock.ZZGhostFailed()...)
 		}
 		b, _ := json.Marshal(res)
 		out.Write(append(b, '\n'))
